@@ -513,6 +513,8 @@ struct Acc {
     fded: Vec<Value>,
     /// event types that the event type enums fold into another spelling
     falias: Vec<Value>,
+    /// RoomPowerLevels::max against the largest level of the content
+    fmax: Vec<Value>,
 }
 impl Acc {
     fn check(&mut self, vname: &str, rules: &AuthorizationRules, st: &St, rst: &HashMap<(StateEventType, String), Pdu>, ev: &Ev) {
@@ -983,6 +985,12 @@ fn scenario_helpers(vname: &str, rules: &AuthorizationRules, acc: &mut Acc) {
                                 }
                             };
                             let helper = RoomPowerLevels::from(content);
+                            // RoomPowerLevels::max: the largest of users_default and every users entry
+                            let want_max = [ud.unwrap_or(0)].into_iter().chain(lb).chain(lc).max().unwrap_or(0);
+                            let got_max = i64::from(helper.max());
+                            if got_max != want_max && acc.fmax.len() < 25 {
+                                acc.fmax.push(json!({"rules": vname, "power_levels": pl.json(), "expected": want_max, "observed": got_max, "call": "RoomPowerLevels::max()"}));
+                            }
                             // (name, helper's answer, corresponding event, target's current membership)
                             let cases: Vec<(&str, bool, Ev, &str)> = vec![
                                 ("user_can_ban_user", helper.user_can_ban_user(&b, &c), base_ev("m.room.member", B, Some(C), json!({"membership": "ban"})), "join"),
@@ -1190,7 +1198,7 @@ pub fn run(tier: &str) -> Report {
         .flat_map(|(vn, r)| (0..6).map(move |part| (vn, r.clone(), part)))
         .map(|(vn, rules, part)| {
             std::thread::spawn(move || {
-                let mut acc = Acc { n: 0, accepted: 0, fsel: vec![], f: vec![], fp: vec![], fded: vec![], falias: vec![] };
+                let mut acc = Acc { n: 0, accepted: 0, fsel: vec![], f: vec![], fp: vec![], fded: vec![], falias: vec![], fmax: vec![] };
                 match part {
                     0 => scenario_membership(vn, &rules, thorough, &mut acc),
                     1 => {
@@ -1213,6 +1221,7 @@ pub fn run(tier: &str) -> Report {
     let mut fsel = vec![];
     let mut fded: Vec<Value> = vec![];
     let mut falias: Vec<Value> = vec![];
+    let mut fmax: Vec<Value> = vec![];
     for h in handles {
         match h.join() {
             Ok((part, acc)) => {
@@ -1231,6 +1240,11 @@ pub fn run(tier: &str) -> Report {
                 for x in acc.falias {
                     if falias.len() < 60 {
                         falias.push(x);
+                    }
+                }
+                for x in acc.fmax {
+                    if fmax.len() < 40 {
+                        fmax.push(x);
                     }
                 }
                 for x in acc.fded {
@@ -1271,6 +1285,7 @@ pub fn run(tier: &str) -> Report {
             ("room_creation_accepted_exactly_as_the_rules_say", n[3], f3),
             ("power_level_helpers_answer_as_auth_check_decides", n[4], f4),
             ("send_state_helper_on_state_types_with_rules_of_their_own", n[4], fded),
+            ("power_level_helpers_max_is_the_largest_of_users_default_and_every_user_level", n[4] / 6, fmax),
             ("third_party_invites_accepted_exactly_as_the_rules_say", n[5], f5),
             ("decision_depends_only_on_the_selected_auth_state_entries", total, fsel),
             ("selection_is_the_specified_subset_of_the_state", nselection, fselection),
